@@ -348,7 +348,7 @@ func runRedef(c *Ctx) {
 			// key-space agreement: every kind that can become a field shares its hash namespace with a supplied-input kind
 			suppliedKinds := map[string]bool{}
 			if ib := p.MustRole("inputBuilder"); ib != nil {
-				for _, ci := range core.Calls(ib, core.GAddOverwrite) {
+				for _, ci := range p.RegionCalls(ib, core.GAddOverwrite) {
 					if _, nn := core.StructOf(core.Strip(ci.Common().Args[1]).Type()); nn != nil {
 						suppliedKinds[core.TypeStr(nn)] = true
 					}
